@@ -47,6 +47,8 @@ pub enum ParseErrorEnum {
     ExpectedMethodCallOrFieldAccess,
     /// Found an unexpected token.
     Expected(TokenEnum),
+    /// Expressions, patterns or types are nested more deeply than the parser supports.
+    NestingTooDeep,
 }
 
 impl std::fmt::Display for ParseErrorEnum {
@@ -76,6 +78,9 @@ impl std::fmt::Display for ParseErrorEnum {
                 f.write_str("Expected a method call or field access")
             }
             ParseErrorEnum::Expected(token) => f.write_fmt(format_args!("Expected '{token}'")),
+            ParseErrorEnum::NestingTooDeep => f.write_fmt(format_args!(
+                "Nested too deeply (more than {MAX_NESTING} levels)"
+            )),
         }
     }
 }
@@ -101,11 +106,16 @@ impl Tokens {
     }
 }
 
+/// Maximum nesting depth of expressions, patterns and types (the parser, the type checker and the
+/// compiler are recursive, an unbounded depth would overflow the stack).
+const MAX_NESTING: usize = 128;
+
 struct Parser {
     tokens: Peekable<IntoIter<Token>>,
     errors: Vec<ParseError>,
     struct_literals_allowed: bool,
     open_parens_or_brackets: Vec<TokenEnum>,
+    nesting: usize,
 }
 
 impl Parser {
@@ -115,7 +125,20 @@ impl Parser {
             errors: vec![],
             struct_literals_allowed: true,
             open_parens_or_brackets: vec![],
+            nesting: 0,
         }
+    }
+
+    /// Runs one of the recursive parse functions one nesting level deeper.
+    fn nested<T>(&mut self, parse: fn(&mut Self) -> Result<T, ()>) -> Result<T, ()> {
+        if self.nesting >= MAX_NESTING {
+            self.push_error_for_next(ParseErrorEnum::NestingTooDeep);
+            return Err(());
+        }
+        self.nesting += 1;
+        let result = parse(self);
+        self.nesting -= 1;
+        result
     }
 
     fn parse(mut self) -> Result<UntypedProgram, Vec<ParseError>> {
@@ -631,6 +654,10 @@ impl Parser {
     }
 
     fn parse_expr(&mut self) -> Result<UntypedExpr, ()> {
+        self.nested(Self::parse_expr_nested)
+    }
+
+    fn parse_expr_nested(&mut self) -> Result<UntypedExpr, ()> {
         if let Some(meta) = self.next_matches(&TokenEnum::LeftBrace) {
             // { ... }
             let stmts = self.parse_stmts()?;
@@ -973,6 +1000,10 @@ impl Parser {
     }
 
     fn parse_pattern(&mut self) -> Result<UntypedPattern, ()> {
+        self.nested(Self::parse_pattern_nested)
+    }
+
+    fn parse_pattern_nested(&mut self) -> Result<UntypedPattern, ()> {
         if let Some(Token(token_enum, meta)) = self.tokens.peek() {
             match token_enum {
                 TokenEnum::Identifier(identifier) => {
@@ -1196,7 +1227,7 @@ impl Parser {
     fn parse_unary(&mut self) -> Result<UntypedExpr, ()> {
         // -, !
         if let Some(meta) = self.next_matches(&TokenEnum::Bang) {
-            let unary = self.parse_unary()?;
+            let unary = self.nested(Self::parse_unary)?;
             let expr_meta = unary.meta;
             let meta = join_meta(meta, expr_meta);
             Ok(Expr::untyped(
@@ -1204,7 +1235,7 @@ impl Parser {
                 meta,
             ))
         } else if let Some(meta) = self.next_matches(&TokenEnum::Minus) {
-            let unary = self.parse_unary()?;
+            let unary = self.nested(Self::parse_unary)?;
             let expr_meta = unary.meta;
             let meta = join_meta(meta, expr_meta);
             Ok(Expr::untyped(
@@ -1306,6 +1337,10 @@ impl Parser {
     }
 
     fn parse_literal_recusively(&mut self) -> Result<UntypedExpr, ()> {
+        self.nested(Self::parse_literal_recusively_nested)
+    }
+
+    fn parse_literal_recusively_nested(&mut self) -> Result<UntypedExpr, ()> {
         if let Some(token) = self.advance() {
             self.parse_literal(token, true)
         } else {
@@ -1544,6 +1579,10 @@ impl Parser {
     }
 
     fn parse_type(&mut self) -> Result<(Type, MetaInfo), ()> {
+        self.nested(Self::parse_type_nested)
+    }
+
+    fn parse_type_nested(&mut self) -> Result<(Type, MetaInfo), ()> {
         if let Some(meta) = self.next_matches(&TokenEnum::LeftParen) {
             let mut fields = vec![];
             if !self.peek(&TokenEnum::RightParen) {
